@@ -1,6 +1,7 @@
 import Labella.Model.Scale
 import Labella.Props.C16
 import Labella.Proofs.TickLemmas
+import Labella.Proofs.NiceTenth
 import Mathlib.Algebra.Order.Field.Rat
 import Mathlib.Tactic.Ring
 import Mathlib.Tactic.Linarith
@@ -72,6 +73,46 @@ theorem nice_ends_are_multiples (d0 d1 m : ℚ) (hd : d0 < d1) (hm : 0 < m) :
   rw [hstep, nice_eq]
   exact ⟨k0, k1, e0, e1⟩
 
+/-- both ends of the nice domain are integer multiples of one tenth of the tick step of the nice domain itself -/
+theorem nice_ends_multiples_of_tenth_of_final_step (d0 d1 m : ℚ) (hd : d0 < d1) (hm : 1 ≤ m) :
+    let n := nice d0 d1 m
+    let step := (tickRange n.1 n.2 m).2.2
+    ∃ k0 k1 : Int, n.1 = (k0 : ℚ) * (step / 10) ∧ n.2 = (k1 : ℚ) * (step / 10) := by
+  intro n step
+  obtain ⟨hn, k0, k1, e0, e1⟩ := nice_tenth_of_lt d0 d1 m hd hm
+  have hstep : step = tickStep (n.2 - n.1) m := tickRange_step_of_lt _ _ m hn
+  rw [hstep]
+  exact ⟨k0, k1, e0, e1⟩
+
+/-- the same for a descending domain (`nice` keeps the orientation and treats it symmetrically) -/
+theorem nice_ends_multiples_of_tenth_of_final_step_desc (d0 d1 m : ℚ) (hd : d1 < d0) (hm : 1 ≤ m) :
+    let n := nice d0 d1 m
+    let step := (tickRange n.1 n.2 m).2.2
+    ∃ k0 k1 : Int, n.1 = (k0 : ℚ) * (step / 10) ∧ n.2 = (k1 : ℚ) * (step / 10) := by
+  intro n step
+  obtain ⟨hn, k0, k1, e0, e1⟩ := nice_tenth_of_gt d0 d1 m hd hm
+  have hstep : step = tickStep (n.1 - n.2) m := tickRange_step_of_gt _ _ m hn
+  rw [hstep]
+  exact ⟨k0, k1, e0, e1⟩
+
+/-- a descending domain gives the mirrored result -/
+theorem nice_desc_eq_swap (d0 d1 m : ℚ) (hd : d1 < d0) (hm : 0 < m) :
+    nice d0 d1 m = ((nice d1 d0 m).2, (nice d1 d0 m).1) :=
+  nice_swap d0 d1 m hd hm
+
+-- non-vacuity: `nice (3/10) (97/10) 10 = (0, 10)`, the final step is 1, the ends are 0 and 100 tenths of it
+example : nice (3/10) (97/10) 10 = (0, 10) ∧ (tickRange 0 10 10).2.2 = 1 ∧
+    (0 : ℚ) = ((0 : Int) : ℚ) * (1 / 10) ∧ (10 : ℚ) = ((100 : Int) : ℚ) * (1 / 10) := by
+  refine ⟨by decide +kernel, by decide +kernel, by norm_num, by norm_num⟩
+
+-- a case where the tenth is needed: `nice (3/2) (5/2) 1 = (0, 4)`, the final step is 5, and `4 = 8 · (5/10)` is no multiple of 5
+example : nice (3/2) (5/2) 1 = (0, 4) ∧ (tickRange 0 4 1).2.2 = 5 ∧ (4 : ℚ) = ((8 : Int) : ℚ) * (5 / 10) := by
+  refine ⟨by decide +kernel, by decide +kernel, by norm_num⟩
+
+-- `1 ≤ m` cannot be dropped: for `m = 3/4`, `nice (17/2) (21/2) (3/4) = (5, 15)` with final step 20, and 5 is no multiple of 2
+example : nice (17/2) (21/2) (3/4) = (5, 15) ∧ (tickRange 5 15 (3/4)).2.2 = 20 := by
+  refine ⟨by decide +kernel, by decide +kernel⟩
+
 /-! ### nice (time) — proved in `Props/C16.lean` next to the tick theorems they share lemmas with -/
 
 /-- making a time domain nice never moves an end inward and never reverses its orientation -/
@@ -86,14 +127,14 @@ theorem time_nice_on_boundaries (d0 d1 : Int) (m : Rat) (u : Calendar.TUnit) (s 
     Calendar.isBoundary u (Calendar.nice d0 d1 m).1 = true ∧ Calendar.isBoundary u (Calendar.nice d0 d1 m).2 = true :=
   C16.nice_on_boundaries d0 d1 m u s h
 
+-- non-vacuity: `nice (3/10) (97/10) 10 = (0, 10)` (evaluated); time: `nice 1000 90000000 10 = (0, 97200000)`
+example : Calendar.nice 1000 90000000 10 = (0, 97200000) := by decide +kernel
+
 /-- **C14 (time part) in full** for the model: for every domain and every count 2…50 the nice domain satisfies the
 complete predicate: ends only move outward, by less than two tick steps (largest gap of the original domain's ticks),
 onto boundaries at least as coarse as the tick spacing -/
 theorem time_nice_ok (d0 d1 : Int) (m : Nat) (hm : 2 ≤ m ∧ m ≤ 50) :
     Calendar.niceOKB d0 d1 (m : Rat) (Calendar.nice d0 d1 (m : Rat)).1 (Calendar.nice d0 d1 (m : Rat)).2 = true :=
   C16.nice_ok d0 d1 m hm
-
--- non-vacuity: `nice (3/10) (97/10) 10 = (0, 10)` (evaluated); time: `nice 1000 90000000 10 = (0, 97200000)`
-example : Calendar.nice 1000 90000000 10 = (0, 97200000) := by decide +kernel
 
 end Labella.C14
